@@ -206,6 +206,11 @@ func OpenDB(args ...interface{}) (massdb.MassDB, error) {
 	if !ok {
 		return nil, ErrDBWrongType
 	}
+	// the header must describe the same (pubKey, bitLength) as the file name
+	if !pubKey.IsEqual(hmB.pk) || hmB.bl != bitLength {
+		hmB.Close()
+		return nil, ErrDBHeaderNotMatched
+	}
 
 	var hmA *HashMapA
 	hmA = nil
@@ -217,6 +222,11 @@ func OpenDB(args ...interface{}) (massdb.MassDB, error) {
 		hmA, ok = hmAi.(*HashMapA)
 		if !ok {
 			return nil, ErrDBWrongType
+		}
+		if !pubKey.IsEqual(hmA.pk) || hmA.bl != bitLength {
+			hmA.Close()
+			hmB.Close()
+			return nil, ErrDBHeaderNotMatched
 		}
 	}
 
